@@ -144,7 +144,7 @@ func c17Body(c *C17Case) Verdict {
 			if a.Leaf != b.Leaf || a.Phase != b.Phase || a.Attempt != b.Attempt {
 				return bad("C17:twin-shape", "style twin ran %v, original %v", traceStrings(ty), traceStrings(tx))
 			}
-			if !deepEq(a.In, b.In) {
+			if a.Phase != "fb" && !deepEq(a.In, b.In) { // (the fallback function is no Result/Any variant; its argument is C02's clause)
 				return bad("C17:twin-payload", "%s: styles observe different inputs: %#v vs %#v", a, a.In, b.In)
 			}
 			if a.Phase == "post" {
@@ -204,7 +204,7 @@ func c17Body(c *C17Case) Verdict {
 
 func checkC17(t *testing.T, c C17Case) Verdict {
 	var v Verdict
-	if f := Bubble(t, func() { v = c17Body(&c) }); f != "" {
+	if f := Bubble(t, func() { v = c17Body(&c) }); f != "" && !goroutinesRemain(f) {
 		return bad("C17:bubble", "%s", f)
 	}
 	return v
